@@ -514,7 +514,7 @@ pub fn gen_bad(rng: &mut Rng, cfg: &GenCfg) -> Body {
             // valid names in an invalid 'or' arrangement
             let a = NAMES[g.p as usize];
             let b = NAMES[rng.usize_below(7)];
-            let shapes = [format!("{} or", a), format!("or {}", a), format!("{} or or {}", a, b), format!("{} or {} or {}", a, b, a), format!("{} {}", a, b), format!("{}or{}", a, b), format!("{} or {},", a, b).trim_end_matches(',').to_string() + " or"];
+            let shapes = [format!("{} OR {}", a, b), format!("{} Or {}", a, b), format!("{} oR {}", a, b), format!("{} or", a), format!("or {}", a), format!("{} or or {}", a, b), format!("{} or {} or {}", a, b, a), format!("{} {}", a, b), format!("{}or{}", a, b), format!("{} or {},", a, b).trim_end_matches(',').to_string() + " or"];
             format!("{},{},{}", g.cps_text(), shapes[rng.usize_below(shapes.len())], g.desc)
         }
         15 => {
